@@ -62,10 +62,10 @@ ErrCount(t) == LET ii == Kids(t, 0, "isa") IN SumSeq([k \in 1..Len(ii) |-> IsaEr
 (* ---- mutators ---- *)
 SetCursor(t, k, i) == [t EXCEPT !.segk = k, !.segi = i, !.seg_added = TRUE]
 AddIsaLoop(t, c) == LET n == [Node("isa", 0, "children") EXCEPT !.id = c.id, !.x = c.x, !.info = c.info]
-                        t1 == [t EXCEPT !.nodes = Append(@, n), !.isa = Len(t.nodes) + 1] IN SetCursor(t1, "isa", t1.isa)
+                        t1 == [t EXCEPT !.nodes = Append(@, n), !.isa = Len(t.nodes) + 1, !.gs = 0, !.st = 0] IN SetCursor(t1, "isa", t1.isa)   \* a new interchange has no current group or set
 AddGsLoop(t, c) == IF t.isa = 0 THEN Crash(t) ELSE
                    LET n == [Node("gs", t.isa, "children") EXCEPT !.id = c.id, !.kind = c.kind, !.x = c.x, !.info = c.info]
-                       t1 == [t EXCEPT !.nodes = Append(@, n), !.gs = Len(t.nodes) + 1] IN SetCursor(t1, "gs", t1.gs)
+                       t1 == [t EXCEPT !.nodes = Append(@, n), !.gs = Len(t.nodes) + 1, !.st = 0] IN SetCursor(t1, "gs", t1.gs)            \* a new group has no current set
 AddStLoop(t, c) == IF t.gs = 0 THEN Crash(t) ELSE
                    LET n == [Node("st", t.gs, "children") EXCEPT !.id = c.id, !.kind = c.kind, !.x = c.x, !.ack = "R"]
                        t1 == [t EXCEPT !.nodes = Append(@, n), !.st = Len(t.nodes) + 1] IN SetCursor(t1, "st", t1.st)
@@ -76,9 +76,9 @@ EleParent(t) == CASE t.segk = "isa" -> <<"isa", t.isa>> [] t.segk = "gs" -> <<"g
 AddEle(t, c) == IF t.segk = "none" THEN Crash(t) ELSE
                 [t EXCEPT !.pele = [Node("ele", 0, "elements") EXCEPT !.pos = c.pos, !.sub = c.sub, !.id = c.ref],
                           !.ele_set = TRUE, !.ele_added = FALSE, !.elei = 0, !.epar = EleParent(t)]
-(* _add_cur_seg: raises (AttributeError) when there is no current set *)
-CanAddCurSeg(t) == t.seg_added \/ t.st # 0
-AddCurSeg(t) == IF t.seg_added THEN t
+(* _add_cur_seg: nothing happens when there is no current set to hold the segment node *)
+CanAddCurSeg(t) == TRUE
+AddCurSeg(t) == IF t.seg_added \/ t.st = 0 THEN t
                 ELSE [t EXCEPT !.nodes = Append(@, [t.pseg EXCEPT !.par = t.st]), !.segi = Len(t.nodes) + 1, !.seg_added = TRUE]
 AddErr(t, i, code, val, mark) == [t EXCEPT !.nodes[i].errs = Append(@, <<code, val>>), !.nodes[i].marks = Append(@, mark)]
 IsaError(t, c) == IF t.isa = 0 THEN Crash(t) ELSE [t EXCEPT !.nodes[t.isa].errs = Append(@, <<c.code, "">>)]
